@@ -34,6 +34,18 @@ HAND = [
 ]
 
 
+def single_array_parties(src, total_bits):
+    """expected input parties when main's only parameter is an array with a LITERAL size n: n parties of equal size
+    (None when the parameter is not such an array: sizes given by consts are left to the lowering tie)"""
+    m = re.search(r"pub fn main\(\s*(?:mut\s+)?\w+\s*:\s*\[(.*);\s*(\d+)(?:usize)?\s*\]\s*\)\s*->", re.sub(r"\s+", " ", src))
+    if not m:
+        return None
+    n = int(m.group(2))
+    if n == 0 or total_bits % n:
+        return None
+    return [total_bits // n] * n
+
+
 def type_shape_programs():
     """type definitions at the edges of the size computations (enum tag width for 1, 2, 3, 4, 5, 8, 9 variants, payloads
     of size 0, nesting), each used as parameter type, return type, literal and match scrutinee"""
@@ -163,8 +175,7 @@ def run(ck):
             bad = f"input bits {ig} do not match the parameter sizes {mp}"
         elif len(mp) != 1 and ig != mp:
             bad = f"input parties {ig} != parameter sizes {mp}"
-        elif len(mp) == 1 and re.search(r"pub fn main\(\w+: \[", rec["src"]) and not (
-                len(set(ig)) <= 1 and len(ig) >= 1 and (len(ig) > 1 or re.search(r"pub fn main\(\w+: \[.*; (?:1|const \{ 1usize \})\]\)", rec["src"]) or sum(mp) == 0)):
+        elif len(mp) == 1 and single_array_parties(rec["src"], sum(mp)) not in (None, ig):
             bad = f"a single array parameter is not split into one party per element: input parties {ig}"
         else:
             for cfg, results in rec["runs"].items():
